@@ -1,9 +1,12 @@
 //! Defines some carefully crafted locking & syncing primitives
 
+#[cfg(not(feature = "verif"))]
 use std::sync::atomic::{
     AtomicBool,
     Ordering::{Acquire, Release, Relaxed},
 };
+#[cfg(feature = "verif")]
+use {crate::verif::atomic::AtomicBool, std::sync::atomic::Ordering::{Acquire, Release, Relaxed}};
 
 
 /// Returns when the lock was acquired -- inspired by `parking-lot`
